@@ -307,6 +307,9 @@ var dictionary = []string{
 	"[&", "::", ":;", ",,", "();", "(,);", "(A);", "((A,B));", ";;", "\xff", "\xc3", " ; ", "\t;", "=;", "[[", "]]",
 	// blanks other than space, tab, CR, LF: a label or a line may consist of nothing else
 	"\u00a0", "\f", "\v", "\u2003", "\u0085", "\u3000", ")\u00a0", ")\f:", ";\t", ";\t\n", "; \t",
+	// numbers where a count or a size is expected: negative, zero, beyond int32 / int64, not integers
+	"-1", "-4", "0", "2147483648", "9223372036854775807", "-9223372036854775808", "99999999999999999999", "1e9", "0x10", "NTAX=-4", "NTAX=9223372036854775807",
+	"NCHAR=-2", "NCHAR=0",
 }
 
 // Mutation is one byte-level edit, interpreted relative to the current document.
